@@ -12,7 +12,8 @@ InstreamFineSediment is covered on the rational fragment of its power laws (outf
 width / Manning's n in {1, 32}; floodplain exponent 0 or below -750 where exp() is exactly 0 in float64): bank-full
 flow 0 vs > 0, flow below / at / above bank-full, deposition limited by the room left, remobilisation limited by the
 channel store (FineStoreBounds), neither, initial store given as a proportion, dry reach.
-Not covered (exp/pow kernels): StorageParticulateTrapping, InstreamDissolvedNutrientDecay.
+StorageParticulateTrapping is covered for integer length-discharge powers (0, 1, 2: its sedimentation index is then
+rational): efficiencies inside (0,100) and clamped at both ends, no inflow, no reservoir length, no water.
 """
 from .. import exact
 
@@ -29,6 +30,6 @@ def run(ctx):
         if s:
             for m in s["mismatches"]:
                 ctx.report({"kind": m["kind"], "model": m["model"]}, "%s: %s | case %s" % (m["model"], m["detail"], str(m["case"].get("exact"))[:400]), m)
-    ctx.assumptions += ["claimed for the six constituent models whose kernels are rational and for in-stream fine sediment on the rational fragment of its power laws; reservoir particulate trapping (pow/exp) and the decay-enabled dissolved models are not covered",
+    ctx.assumptions += ["claimed for the six constituent models whose kernels are rational and for in-stream fine sediment on the rational fragment of its power laws; reservoir particulate trapping for integer powers; the decay-enabled dissolved models are outside the statement",
                         "grid: T=2 (particulate nutrient: T=1 with all branches), loads/flows/volumes from small rational sets incl. zero flow and an empty store"]
     return ctx.finish("model_checking")
